@@ -5,6 +5,7 @@ import (
 
 	"verifharness/monitor"
 	"verifharness/oracle"
+	"verifharness/sim"
 
 	"github.com/atlassian/escalator/pkg/controller"
 	v1 "k8s.io/api/core/v1"
@@ -214,6 +215,24 @@ func runC14(tier string, seed int64, si, sn int, rep *monitor.Report, note func(
 		}
 		batch = nil
 	}
+	// for the pass through the real informer cache below: every selector x every 7th affinity structure (and the
+	// first three) x every owner list x every static-pod annotation
+	var sample []*v1.Pod
+	if si == 0 {
+		for _, sel := range c14Selectors() {
+			for ai, aff := range c14Affinities() {
+				if ai > 2 && ai%7 != 0 {
+					continue
+				}
+				for _, ow := range owners {
+					for _, st := range statics {
+						sample = append(sample, &v1.Pod{ObjectMeta: metav1.ObjectMeta{Name: fmt.Sprintf("sample-%d", len(sample)), Namespace: "ns", OwnerReferences: ow.refs, Annotations: st.anno},
+							Spec: v1.PodSpec{NodeSelector: sel.sel, Affinity: aff.aff}})
+					}
+				}
+			}
+		}
+	}
 	idx := 0
 	for _, sel := range c14Selectors() {
 		for _, aff := range c14Affinities() {
@@ -243,11 +262,79 @@ func runC14(tier string, seed int64, si, sn int, rep *monitor.Report, note func(
 					if len(batch) >= 512 {
 						flush()
 					}
+
 				}
 			}
 		}
 	}
 	flush()
+
+	// The same rule through the real informer cache: NewController/NewClient build the pod and node informers, which
+	// list once through a REST client served from a store holding the sampled shapes; the controller's own
+	// informer-backed filtered listers must then return exactly the pods and nodes the documented rule selects.
+	if si == 0 && len(sample) > 0 {
+		specs := []sim.GroupSpec{
+			{Opts: controller.NodeGroupOptions{Name: "shared", LabelKey: c14Key, LabelValue: c14Val, CloudProviderGroupName: "asg-shared", MinNodes: 1, MaxNodes: 9}},
+			{Opts: controller.NodeGroupOptions{Name: "default", LabelKey: c14Key, LabelValue: c14Val, CloudProviderGroupName: "asg-default", MinNodes: 1, MaxNodes: 9}},
+		}
+		env := sim.NewEnv(specs, false, 1)
+		env.AddASG(0, 0, 9, 1)
+		env.AddASG(1, 0, 9, 1)
+		for _, p := range sample {
+			env.K.PutPod(p)
+		}
+		for i, l := range []map[string]string{nil, {c14Other: c14Val}, {c14Key: c14Other}, {c14Key: c14Val}, {c14Key: c14Val, "zone": "a"}} {
+			env.K.PutNode(&v1.Node{ObjectMeta: metav1.ObjectMeta{Name: fmt.Sprintf("n%d", i), Labels: l}})
+		}
+		probed := false
+		env.RealConstructor = true
+		env.InformerProbe = func(ctl *controller.Controller) {
+			probed = true
+			for _, c := range []*oracle.Cfg{cfg, def} {
+				l := ctl.Client.Listers[c.Name]
+				if l == nil {
+					rep.Violate(P, "informer-lister-missing", "the controller built by NewController has no lister for group %q", c.Name)
+					continue
+				}
+				got, err := l.Pods.List()
+				if err != nil {
+					rep.Violate(P, "lister-error", "informer-backed pod lister of group %s failed: %v", c.Name, err)
+					continue
+				}
+				gotSet := map[string]bool{}
+				for _, p := range got {
+					gotSet[p.Name] = true
+				}
+				want := 0
+				for _, p := range sample {
+					in := oracle.PodInGroup(c, p)
+					if in {
+						want++
+					}
+					if in != gotSet[p.Name] {
+						rep.Violate(P, "informer-lister-mismatch:"+c.Name, "group %q, pod %s (selector %v, owners %v, annotations %v): the informer-backed lister of the controller says %v, the documented rule says %v",
+							c.Name, p.Name, p.Spec.NodeSelector, p.OwnerReferences, p.Annotations, gotSet[p.Name], in)
+						break
+					}
+				}
+				evals += len(sample)
+				rep.Covered(P, fmt.Sprintf("informer-path:%s:pods-selected=%v", c.Name, want > 0))
+				nodes, err := l.Nodes.List()
+				if err != nil {
+					rep.Violate(P, "lister-error", "informer-backed node lister of group %s failed: %v", c.Name, err)
+					continue
+				}
+				if len(nodes) != 2 {
+					rep.Violate(P, "informer-node-lister-mismatch:"+c.Name, "group %q: the informer-backed node lister returned %d nodes, the label rule selects 2 of 5", c.Name, len(nodes))
+				}
+			}
+		}
+		if err := env.Start(); err != nil {
+			rep.Violate(P, "informer-path-setup", "cannot build a controller through the real NewController: %v", err)
+		} else if !probed {
+			rep.Violate(P, "informer-path-setup", "the real constructor was not used")
+		}
+	}
 
 	// nodes
 	nodeMaps := []struct {
